@@ -413,12 +413,12 @@ def _members_of(b):
 
 register(Unit('members.minimal', 'concepts/lattice_members.py', 'Concept.minimal', _trace_unit('minimal', _minimal_setup('minimal')),
               assumptions=['contract of _minimal/_minimize (units contexts.minimal, contexts.minimize); bitsets members()'],
-              linkage=[('concepts.lattice_members.Concept.minimal', None)]))
+              linkage=[("type(c).minimal if type(c).__name__ != 'Infimum' else concepts.lattice_members.Concept.minimal", None)]))
 register(Unit('members.attributes', 'concepts/lattice_members.py', 'Concept.attributes', _trace_unit('attributes', _minimal_setup('attributes')),
               assumptions=['contract of _minimize (unit contexts.minimize); bitsets members()'],
               linkage=[('type(c).attributes', None)]))
 register(Unit('members.infimum_minimal', 'concepts/lattice_members.py', 'Infimum.minimal', _trace_unit('minimal', _minimal_setup('infimum')),
-              assumptions=['bitsets members()'], linkage=[('concepts.lattice_members.Infimum.minimal', None)]))
+              assumptions=['bitsets members()'], linkage=[('concepts.lattice_members.Infimum.minimal', None), ('type(lat.infimum).minimal', None)]))
 
 
 def _minimal_cls_setup(path, rec):
